@@ -124,3 +124,46 @@ def c_free(c):
     c.goal_eq('q_mult_L', L @ r, qmul(ph, r))
     c.goal_eq('q_mult_R', R @ r, qmul(r, qh))
     c.observe('L', L)
+
+
+# ---- integer-typed operands (seed C09-2).  The symbolic engine works over the reals and cannot see the int/float dtype of
+# a NumPy buffer (DESIGN 2.1), so the clause "for all quaternions ... all entry points agree" is additionally checked on
+# integer-typed operands at concrete points: labelled concrete, never counted as proved.
+_INT_PTS = [dict(p0=float(a[0]), p1=float(a[1]), p2=float(a[2]), p3=float(a[3]), s=float(s))
+            for a in ([1, 2, -3, 4], [0, 1, 0, 0], [1, 0, 0, 0], [0, 0, -1, 0], [2, -1, 5, 3], [0, 0, 0, 1])
+            for s in (1, 2, 3)]
+
+
+@contract('C09', 'integer-operands.concrete', concrete_points=_INT_PTS,
+          functions=['orientation.q_prod', 'orientation.q_conj', 'orientation.q_mult_L', 'orientation.q_mult_R', 'orientation.q_norm',
+                     'Quaternion.__mul__', 'Quaternion.__matmul__', 'Quaternion.product', 'Quaternion.conjugate',
+                     'Quaternion.inverse', 'Quaternion.mult_L', 'Quaternion.mult_R'], tol=1e-12)
+def c_int_operands(c):
+    """concrete points (NOT a proof): an operand handed over as an integer-typed array gives what the same values as floats give"""
+    o = c.ahrs.common.orientation
+    pi = np.array([int(c.real(f'p{k}')) for k in range(4)])                     # integer dtype
+    pf = pi.astype(float)
+    rng = np.random.default_rng(int(c.real('s')))
+    q = rng.uniform(-1, 1, 4)                                                   # non-integer float operand
+    ref = np.array([pf[0]*q[0] - pf[1]*q[1] - pf[2]*q[2] - pf[3]*q[3], pf[0]*q[1] + pf[1]*q[0] + pf[2]*q[3] - pf[3]*q[2],
+                    pf[0]*q[2] - pf[1]*q[3] + pf[2]*q[0] + pf[3]*q[1], pf[0]*q[3] + pf[1]*q[2] - pf[2]*q[1] + pf[3]*q[0]])
+    fer = np.array([q[0]*pf[0] - q[1]*pf[1] - q[2]*pf[2] - q[3]*pf[3], q[0]*pf[1] + q[1]*pf[0] + q[2]*pf[3] - q[3]*pf[2],
+                    q[0]*pf[2] - q[1]*pf[3] + q[2]*pf[0] + q[3]*pf[1], q[0]*pf[3] + q[1]*pf[2] - q[2]*pf[1] + q[3]*pf[0]])
+    c.goal_eq('q_prod(int,float)', o.q_prod(pi.copy(), q), ref)
+    c.goal_eq('q_prod(float,int)', o.q_prod(q, pi.copy()), fer)
+    c.goal_eq('q_prod(list,float)', o.q_prod([int(x) for x in pi], q), ref)
+    c.goal_eq('assoc.int-first', o.q_prod(o.q_prod(pi.copy(), q), q), o.q_prod(pi.copy(), o.q_prod(q, q)))
+    c.goal_eq('q_conj', o.q_conj(pi.copy()), o.q_conj(pf.copy()))
+    c.goal_eq('q_norm', o.q_norm(pi.copy()), o.q_norm(pf.copy()))
+    c.goal_eq('q_mult_L', o.q_mult_L(pi.copy()) @ q, o.q_mult_L(pf.copy()) @ q)
+    c.goal_eq('q_mult_R', o.q_mult_R(pi.copy()) @ q, o.q_mult_R(pf.copy()) @ q)
+    P = _Q(c, pi.copy(), False)
+    c.goal_eq('Quaternion.stored', P.A, pf)
+    c.goal_eq('product', P.product(q), ref)
+    c.goal_eq('mul', np.asarray(P * q, dtype=float), ref)
+    c.goal_eq('matmul', np.asarray(P @ q, dtype=float), ref)
+    c.goal_eq('product(float,int)', _Q(c, q, False).product(pi.copy()), fer)
+    c.goal_eq('conjugate', P.conjugate, _Q(c, pf, False).conjugate)
+    c.goal_eq('inverse', P.inverse, _Q(c, pf, False).inverse)
+    c.goal_eq('mult_L', P.mult_L() @ q, ref)
+    c.goal_eq('mult_R', P.mult_R() @ q, fer)
